@@ -401,10 +401,18 @@ func runP(c *Case, tmp string, idx int) {
 			running = true
 			record("start", nil)
 		case "stop":
+			if i > 0 && evs[i-1] == "start" && probe.InitialDelay > 0 {
+				// a stop inside the initial delay; the pause keeps clear of the Start goroutine's own stopped.Store(false)
+				time.Sleep(150 * time.Millisecond)
+			}
 			pr.Stop()
 			running = false
 			record("stop", nil)
-			// nothing may arrive while stopped: watch for longer than one period
+			// nothing may arrive while stopped: watch for longer than the initial delay plus one period
+			watch := 1300 * time.Millisecond
+			if probe.InitialDelay > 0 {
+				watch += time.Duration(probe.InitialDelay) * time.Second
+			}
 			select {
 			case v := <-cb:
 				if t.flag.Load() {
@@ -412,7 +420,7 @@ func runP(c *Case, tmp string, idx int) {
 				} else {
 					record("F", v[:])
 				}
-			case <-time.After(1300 * time.Millisecond):
+			case <-time.After(watch):
 			}
 		case "S", "F":
 			if !running {
@@ -464,6 +472,13 @@ func genP(r *rand.Rand, tier string) []*Case {
 	mk("directed", 2, "exec", "F", "stop", "start", "F", "F")
 	mk("directed", 2, "http", "F", "F", "stop", "start", "F", "F")
 	mk("directed", 1, "exec", "S", "stop", "start", "F")
+	// a stop inside the initial delay: the pending probe start is cancelled, a later start works again
+	mkd := func(thr, delay int64, tgt string, evs ...string) {
+		cs = append(cs, &Case{Part: "p", Kind: "directed-delay", Target: tgt,
+			In: &ProbeJ{Delay: delay, Period: 1, Timeout: 1, Succ: 1, Fail: thr}, Evs: append([]string{"start"}, evs...)})
+	}
+	mkd(2, 1, "exec", "stop", "start", "F", "F")
+	mkd(1, 1, "http", "S", "stop", "start", "stop", "start", "F")
 	n := 16
 	ln := 5
 	if tier == "thorough" {
